@@ -12,6 +12,7 @@ import Proofs.XdrEnc
 import Proofs.XdrDec
 import Proofs.XdrSize
 import Proofs.EndToEndText
+import Proofs.XdrStream
 namespace Pydap.C01
 open Pydap Pydap.Xdr
 
@@ -104,6 +105,43 @@ theorem C01_e2e_response_text (d : Dds.Dataset) (s0 : Dds.Text) (t : Tmpl) (data
     (ht : E2E.tmplOfDataset (Dds.normDs d) = some t) (hd : WF t data = true) :
     E2E.clientDecode (body (E2E.encodeAscii (s0 ++ ['\n'])) t data) = .ok (Dds.normDs d, data, []) :=
   E2E.clientDecode_body d s0 t data hwf hp hascii hsep ht hd
+/-! ### the streaming transports: `StreamReader` (`open_dods_url`, `SequenceProxy.__iter__`) -/
+
+/-- **round trip through a `StreamReader`, for every delivery**: whatever chunks the server's bytes arrive in
+    (1-byte chunks, empty chunks, a boundary anywhere; the stream exhausted when the decoder issues its final
+    zero-length reads after a string / Byte array that needs no padding), the client decodes the source values
+    and leaves exactly what follows the encoding -/
+theorem C01_roundtrip_streamed (t : Tmpl) (d : Data) (rest : Bytes) (cs : List Bytes) (h : WF t d = true)
+    (hcs : cs.flatten = encImpl t d ++ rest) : Stream.absSR (decStream t cs) = .ok (d, rest) := by
+  rw [decStream_eq, hcs, C01_roundtrip_framed t d rest h]
+  rfl
+
+/-- **`open_dods_url`** (what `ServerFunctionResult` fetches with): split, `StreamReader(BytesIO(data))` — chunks
+    = lines of the data part — decode: the DDS text and the source values, through any lossless content coding -/
+theorem C01_open_dods_url (z unz : Bytes → Bytes) (hz : ∀ b, unz (z b) = b)
+    (dds0 : Bytes) (t : Tmpl) (d : Data) (h : WF t d = true)
+    (hno : ∀ i, i < dds0.length →
+      ¬ splitPattern.isPrefixOf ((dds0 ++ splitPattern ++ encImpl t d).drop i) = true) :
+    openDodsUrl t (unz (z (body (dds0 ++ [10]) t d))) = some (dds0, .ok d) := by
+  have e : body (dds0 ++ [10]) t d = dds0 ++ splitPattern ++ encImpl t d := by
+    simp [body, splitPattern]
+  rw [hz, openDodsUrl_eq, e]
+  unfold splitBody
+  rw [splitFirst_at splitPattern (by decide) dds0 (encImpl t d) hno]
+  simp [C01_roundtrip t d h, mapE, Stream.fstOf]
+
+/-- **a streamed sequence** (`SequenceProxy.__iter__`: `Data:\n` searched across the chunks of the response
+    as they come, a `StreamReader` over the rest, `unpack_sequence`): for every chunking `cs` of the response
+    to a sequence request the client iterates over the source rows (`hfirst`: the XDR part is what follows the
+    first `Data:\n` in the response, i.e. the DDS text does not contain `Data:\n`) -/
+theorem C01_sequence_streamed (dds : Bytes) (t : Tmpl) (d : Data) (cs : List Bytes) (h : WF t d = true)
+    (hcs : cs.flatten = body dds t d)
+    (hfirst : Stream.afterFirst Stream.dataPattern (body dds t d) = some (encImpl t d)) :
+    seqProxy t cs = .ok d := by
+  rw [seqProxy_eq, hcs]
+  unfold seqProxySpec
+  rw [hfirst]
+  simp [C01_roundtrip t d h, mapE, Stream.fstOf]
 
 /-! ### non-vacuity -/
 
@@ -123,5 +161,18 @@ example : E2E.sepFree (E2E.encodeAscii "Dataset {\n    Int16 a[m0 = 2];\n} ds;".
 example : E2E.sepFree (E2E.encodeAscii "x\nData:".toList) = false := by decide
 example : E2E.baseOfDds (Dds.normBase (E2E.ddsBase "a".toList ["m0".toList, "m1".toList] .uint16 [2, 3]) 0)
     = some (.base .uint16 [2, 3]) := C01_e2e_declaration_bridge _ _ _ _ (Or.inr rfl)
+/-- last variable a 4-character string: the last read of the decoder has length 0 and the stream is exhausted -/
+def exL : Tmpl := .struct [.base .byte [4], .base .string []]
+def exLD : Data := .tuple [.array [.num 1, .num 2, .num 10, .num 4], .scalar (.str [97, 98, 99, 100])]
+example : decTrace exL (encImpl exL exLD) = [4, 4, 4, 0, 4, 4, 0] := by decide
+example : Stream.absSR (decStream exL ((encImpl exL exLD).map fun b => [b])) = .ok (exLD, []) :=
+  C01_roundtrip_streamed exL exLD [] _ (by decide) (by decide)
+example : openDodsUrl exL (body [32, 10] exL exLD) = some ([32], .ok exLD) :=
+  C01_open_dods_url id id (fun _ => rfl) [32] exL exLD (by decide) (by decide)
+def exQ : Tmpl := .seq [.base .int16 [], .base .string []]
+def exQD : Data := .rows [.tuple [.scalar (.num (-3)), .scalar (.str [])]]
+example : seqProxy exQ [[32, 10, 68, 97], [116, 97, 58, 10, 0x5a, 0, 0], [0, 0xff, 0xff, 0xff, 0xfd, 0, 0, 0], [],
+    [0, 0xa5, 0, 0, 0]] = .ok exQD :=
+  C01_sequence_streamed [32, 10] exQ exQD _ (by decide) (by decide) (by decide)
 
 end Pydap.C01
